@@ -447,6 +447,152 @@ def judge_scenario(ctx, sc, mode, s, run_summary=None):
                       dict(rp, finding_key="F-04-suffixed-tag-not-unpermuted"))
 
 
+
+# ---- E. reported values with reordering on vs off, for every observable the CODE lets through ----
+def observable_zoo(sc):
+    """one instance of every observable class pulser offers (plus suffix twins), with user data written
+    in REGISTER order; returns [(name, observable, analytic value or None)]"""
+    import inspect
+    import pulser.backend as pb
+    from emu_mps import MPS, MPO
+
+    sc = norm_scenario(sc)
+    n, occ = sc["n"], sc["expected_occ"]
+    # asymmetric product target: 'r' where the atom is (mostly) excited
+    bits = "".join("r" if p > 0.75 else "g" for p in occ)
+    fid = 1.0
+    for p, b in zip(occ, bits):
+        fid *= p if b == "r" else 1 - p
+    a_max = max(range(n), key=lambda a: occ[a])
+    a_min = min(range(n), key=lambda a: occ[a])
+    zoo = []
+
+    def target():
+        return MPS.from_state_amplitudes(eigenstates=("r", "g"), amplitudes={bits: 1.0})
+
+    def n_op(a):
+        return MPO.from_operator_repr(eigenstates=("r", "g"), n_qudits=n, operations=[(1.0, [({"rr": 1.0}, {a})])])
+
+    known = {
+        "Fidelity": lambda: [("fidelity", pb.Fidelity(target(), evaluation_times=[1.0]), fid)],
+        "Expectation": lambda: [("expectation", pb.Expectation(n_op(a_max), evaluation_times=[1.0]), occ[a_max]),
+                                ("expectation_lo", pb.Expectation(n_op(a_min), evaluation_times=[1.0], tag_suffix="lo"),
+                                 occ[a_min])],
+    }
+    skipped = []
+    for name in sorted(dir(pb)):
+        cls = getattr(pb, name)
+        if not (inspect.isclass(cls) and issubclass(cls, pb.Observable) and cls is not pb.Observable):
+            continue
+        try:
+            if name in known:
+                zoo += known[name]()
+            else:
+                zoo.append((cls(evaluation_times=[1.0])._base_tag, cls(evaluation_times=[1.0]), None))
+        except Exception as ex:  # noqa: BLE001  an observable this harness cannot construct
+            skipped.append(f"{name}: {type(ex).__name__}")
+    return zoo, skipped, {"target_bits": bits, "fidelity": fid}
+
+
+def code_lets_through(obs):
+    """does the RUNNING code keep optimize_qubit_ordering on with this observable?"""
+    import logging
+    from emu_mps import MPSConfig
+
+    return bool(MPSConfig(observables=[obs], optimize_qubit_ordering=True, log_level=logging.CRITICAL).optimize_qubit_ordering)
+
+
+def canon_value(v, sc, info):
+    import torch
+    from emu_mps import MPS
+
+    if isinstance(v, MPS):  # a state in chain order must still be the register-order state
+        tgt = MPS.from_state_amplitudes(eigenstates=("r", "g"), amplitudes={info["target_bits"]: 1.0})
+        return ["state-fidelity", round(float(abs(tgt.inner(v)) ** 2), 6)]
+    if isinstance(v, (Counter, dict)) and all(isinstance(k, str) for k in v):
+        n = norm_scenario(sc)["n"]
+        return ["bits"] + ["".join(sorted({k[i] for k in v})) for i in range(n)]
+    if isinstance(v, dict):
+        return ["untracked-dict"]
+    try:
+        t = torch.as_tensor(v)
+        return [round(float(x), 6) for x in torch.view_as_real(t.to(torch.complex128)).flatten().tolist()]
+    except Exception:  # noqa: BLE001
+        return ["untracked", type(v).__name__]
+
+
+def num_close(a, b, tol=1e-4):
+    if len(a) != len(b):
+        return False
+    for x, y in zip(a, b):
+        if isinstance(x, float) and isinstance(y, float):
+            if abs(x - y) > tol:
+                return False
+        elif x != y:
+            return False
+    return True
+
+
+def value_search(ctx, sc, hist):
+    """run the scenario with every let-through observable, reordering forced on vs off"""
+    from emu_mps import MPSBackend
+
+    scn = norm_scenario(sc)
+    n = scn["n"]
+    zoo, skipped, info = observable_zoo(sc)
+    through = [(nm, o, ana) for nm, o, ana in zoo if code_lets_through(o)]
+    ctx.extra.setdefault("observables_let_through_by_the_code", sorted({o._base_tag for _, o, _ in through}))
+    ctx.extra.setdefault("observables_not_constructed", skipped)
+    data = make_data(n, scn["omega_rows"], [[0.0] * n for _ in scn["omega_rows"]], scn["phi_rows"],
+                     [[0.0] * n for _ in range(n)])
+    vals = {}
+    for mode in (True, False):
+        cfg = make_config([o for _, o, _ in through], optimize_qubit_ordering=mode)
+        if mode and not cfg.optimize_qubit_ordering:
+            return "the set of individually accepted observables switches reordering off"
+        with Forced(sc["perm"]):
+            res = MPSBackend._run_from_sequence_data(data, cfg)
+        tagged = res.get_tagged_results()
+        vals[mode] = {o.tag: canon_value(tagged[o.tag][-1], sc, info) for _, o, _ in through if o.tag in tagged}
+    # observables the code does NOT let through: the code itself switches reordering off; one run, analytic check
+    # (also validates this harness's closed forms for Fidelity / Expectation / StateResult on unchanged code)
+    rest = [(nm, o, ana) for nm, o, ana in zoo if not any(o is t for _, t, _ in through)]
+    if rest:
+        cfg = make_config([o for _, o, _ in rest], optimize_qubit_ordering=True)
+        with Forced(sc["perm"]):
+            res = MPSBackend._run_from_sequence_data(data, cfg)
+        tagged = res.get_tagged_results()
+        for nm, o, ana in rest:
+            hist[f"values-reordering-refused/{o._base_tag}"] = hist.get(f"values-reordering-refused/{o._base_tag}", 0) + 1
+            got = canon_value(tagged[o.tag][-1], sc, info)
+            want = None if ana is None else [round(float(ana), 6), 0.0]
+            if got[0] == "state-fidelity":
+                want = ["state-fidelity", round(info["fidelity"], 6)]
+            if want is not None and not num_close(got, want):
+                ctx.violation(f"observable '{o.tag}' reports {got}, analytic register-order value {want}",
+                              {"scenario": sc, "mode": "values", "stage": "values", "tag": o.tag, "base_tag": o._base_tag,
+                               "with_reordering": got, "analytic": want, "info": info,
+                               "finding_key": "reordering-changes-reported-value"})
+    for nm, o, ana in through:
+        hist[f"values/{o._base_tag}"] = hist.get(f"values/{o._base_tag}", 0) + 1
+        on, off = vals[True].get(o.tag), vals[False].get(o.tag)
+        if on is None or off is None or (on and on[0] in ("untracked", "untracked-dict")):
+            continue
+        bad = None
+        if not num_close(on, off):
+            bad = f"value with optimize_qubit_ordering=True {on} differs from the value with it off {off}"
+        elif ana is not None and not num_close(on, [round(float(ana), 6), 0.0]):
+            bad = f"value {on} differs from the analytic value {ana}"
+        elif on[0] == "state-fidelity" and not num_close(on, ["state-fidelity", round(info["fidelity"], 6)]):
+            bad = f"the reported state has overlap {on[1]} with the register-order product target, analytic {info['fidelity']}"
+        if bad:
+            ctx.violation(f"the qubit reordering changes the reported value of observable '{o.tag}': {bad}",
+                          {"scenario": sc, "mode": "values", "stage": "values", "tag": o.tag, "base_tag": o._base_tag,
+                           "with_reordering": on, "without_reordering": off, "analytic": ana, "info": info,
+                           "finding_key": "reordering-changes-reported-value"})
+    return None
+
+
 # ---- D. whitelist --------------------------------------------------------------------------------
 def whitelist_table():
     import pulser.backend as pb
@@ -585,6 +731,20 @@ def run(ctx):
             resume_differs = differs if resume_differs is None else (resume_differs or differs)
             hist[f"scenario/resume/{kind}"] = hist.get(f"scenario/resume/{kind}", 0) + 1
 
+    # E. every observable the running code lets through with reordering on: reported values on vs off
+    verr = ""
+    vscs = [c["scenario"] for c in corpus if c.get("stage") == "values"]
+    vscs += [sc for sc in scs if sc["perm"] != sorted(sc["perm"])][: ctx.n(2, 12)]
+    for sc in vscs:
+        try:
+            e = value_search(ctx, sc, hist)
+        except Exception as ex:  # noqa: BLE001
+            e = f"{type(ex).__name__}: {ex}"[:400]
+        ctx.count_case({"stage": "values", **sc}, True)
+        verr = verr or (e or "")
+    ctx.obligation("falsifier:reported values with reordering on == off for every observable the code lets through "
+                   "(ran on the real backend)", not verr, verr, kind="falsifier")
+
     # which variant does the code follow?
     rv = sorted(flags["routing"] or [])
     variant = {"v_drives": [d for d, _ in rv], "v_mask": [m for _, m in rv], "v_tags": sorted(tags_variants),
@@ -620,6 +780,9 @@ def replay(ctx, path):
     torch.set_num_threads(1)
     rp = json.loads(open(path).read())
     sc = rp["scenario"]
+    if rp.get("stage") == "values":
+        print("replay values:", value_search(ctx, sc, {}))
+        return
     s = run_scenario(sc, "run")
     print("replay run:", s)
     judge_scenario(ctx, sc, "run", s)
